@@ -194,9 +194,12 @@ def leaf(draw, dim, ctx, hint):
 
 
 def probe_envs(ctx):
-    """three parameter rows (low / mid / high of every dependence variable) as one env."""
-    return {v: np.stack([np.full(d, lo), np.full(d, (lo + hi) / 2), np.full(d, hi)])
-            for v, (d, lo, hi) in ctx.dep.items()}
+    """parameter rows at which positivity of measures is probed: low / mid / high of every
+    dependence variable (moved together); nine rows when a product-bound variable (t) is among
+    them, because the library must find points for EVERY value of that variable."""
+    m = 9 if "t" in ctx.dep else 3
+    fr = np.linspace(0.0, 1.0, m)
+    return {v: np.stack([np.full(d, lo + f * (hi - lo)) for f in fr]) for v, (d, lo, hi) in ctx.dep.items()}
 
 
 def ratio_ok(E, ctx, minimum=0.08):
@@ -206,7 +209,7 @@ def ratio_ok(E, ctx, minimum=0.08):
     for node in rg.walk(E):
         if node["t"] not in ("cut", "isect"):
             continue
-        for i in range(3):
+        for i in range(rg.env_len(penv3) if penv3 else 1):
             penv = {k: v[i:i + 1] for k, v in penv3.items()}
             ma, _, _ = rg.qmc_measure(node["a"], penv, 1024)
             mn, _, _ = rg.qmc_measure(node, penv, 1024)
@@ -217,7 +220,8 @@ def ratio_ok(E, ctx, minimum=0.08):
 
 def _hint_of(E, ctx):
     penv3 = probe_envs(ctx)
-    penv = {k: v[1:2] for k, v in penv3.items()}
+    mid = (rg.env_len(penv3) // 2) if penv3 else 0
+    penv = {k: v[mid:mid + 1] for k, v in penv3.items()}
     box = rg.ref_box(E, penv)[0]
     lo, hi = box[0::2], box[1::2]
     return [float((l + h) / 2) for l, h in zip(lo, hi)], float(max(0.3, np.max(hi - lo) / 2))
@@ -421,5 +425,5 @@ def _bound_range(E, var):
                 b = b["a"]
             if b["t"] == "interval" and b["var"] == var and b["lo"]["k"] == "const" and b["hi"]["k"] == "const":
                 lo, hi = b["lo"]["v"][0], b["hi"]["v"][0]
-                return [lo, (lo + hi) / 2, hi]
+                return list(np.linspace(lo, hi, 9))
     return None
